@@ -243,6 +243,11 @@ def reader_sequence(state, buf='packet', cls=None, recv='self'):
                 for a in allargs:
                     sl = slice_of(a, buf) if (a.startswith('SLICE(%s;' % buf) and a.endswith(')')) else None
                     if sl is not None and (base == 'parse' or base in DELEGATES):
+                        same = [r for r, rs in pending if rs == sl]
+                        if same:
+                            # the slice was taken into a local first and is handed to the sub-parser now: one field, not two
+                            same[-1].kind, same[-1].via = 'fixed-delegate', ft
+                            continue
                         r = Read('fixed-delegate', None, None, '%s(%s)' % (ft, a), line, via=ft)
                         pending.append((r, sl))
                         reads.append(r)
